@@ -90,6 +90,21 @@ Proof.
   destruct (scope_eqb (if_scope fe) External); [destruct (if_id f =? e)%N|destruct (_ && _)]; reflexivity.
 Qed.
 
+(** an external link down leaves the other interfaces alone *)
+Lemma get_if_down_other fe x : e <> 0%N -> get_if c e = Some fe ->
+  scope_eqb (if_scope fe) External = true -> x <> e ->
+  get_if (ScmpReturn.apply_cfault (ScmpReturn.CDown e) c) x = get_if c x.
+Proof.
+  intros He G Sc Hx. unfold get_if in *. destruct (x =? 0)%N; [reflexivity|].
+  replace (e =? 0)%N with false in G by (symmetry; now apply N.eqb_neq).
+  cbn [ScmpReturn.apply_cfault]. rewrite G. cbn [ScmpReturn.with_ifs c_ifs]. rewrite Sc. clear G.
+  induction (c_ifs c) as [|y l IH]; [reflexivity|]. cbn [map find_if].
+  destruct (if_id y =? e)%N eqn:E.
+  - cbn [ScmpReturn.set_down if_id]. apply N.eqb_eq in E.
+    replace (if_id y =? x)%N with false by (symmetry; apply N.eqb_neq; congruence). exact IH.
+  - destruct (if_id y =? x)%N; [reflexivity|exact IH].
+Qed.
+
 Lemma lt_of_unknown_other x : x <> e ->
   lt_of (ScmpReturn.apply_cfault (ScmpReturn.CUnknown e) c) x = lt_of c x.
 Proof. intros Hx. unfold lt_of. now rewrite get_if_unknown_other. Qed.
@@ -138,3 +153,334 @@ Proof.
 Qed.
 
 End Ingress.
+
+(** * The state of a router of the path when it looks up the egress interface *)
+Section Stop.
+Variable mac : N -> N -> N -> N -> N -> N -> list N.
+Variable t : topology.
+Variable now : N.
+Variable p : prov.
+Variable pp : pparams.
+Hypothesis HG : good mac t p.
+Hypothesis Hep : endpoints_ok t p pp = true.
+Hypothesis Hexp : all_unexpired now p = true.
+
+Notation n := (nhops p).
+Notation js := (seg_idx (lens p)).
+Notation nsegs := (length (pv_segs p)).
+Notation macq := (macq_of mac).
+Notation Hs := (Hshape mac t p HG).
+Notation HT := (Htot p Hs).
+Notation HP := (Hpos p Hs).
+Notation asof := (as_of t p).
+Notation nifof := (nif_of t p).
+Notation View := (view p pp n nsegs).
+Notation eff := (ForwardStep.eff p).
+Notation in_rtr := (ForwardStep.in_rtr t p).
+Notation eg_rtr := (ForwardStep.eg_rtr t p).
+Notation arrives := (ForwardStep.arrives p).
+
+(** the state in which [after_xover] (egress lookup, link types, alert, BFD) starts *)
+Definition stop_state (kc : nat) (xo : bool) : st :=
+  mkSt (render p pp kc true) (rhop (hop p kc)) (rinfo p kc true (js kc)) (peerhop p kc) xo 0.
+
+(** arrival from the host or from the previous AS *)
+Lemma arrive_state q k ing r :
+  View q k k false -> (S k < n)%nat -> arrives k ing -> (k = 0%nat -> r = eg_rtr (eff k)) ->
+  exists s1 xo,
+    ingress_part (macq (a_key (asof k))) (cfg_of (asof k) r) now ing q = Ok s1 /\
+    s_p s1 = render p pp k true /\
+    (p_dst_ia q =? a_ia (asof k))%N = false /\
+    xover_part (macq (a_key (asof k))) now s1 = Ok (stop_state (eff k) xo) /\
+    asof (eff k) = asof k /\ (S (eff k) < n)%nat /\ crosses p (eff k) = true /\
+    validate_egress (from0 ing) (lt_of (cfg_of (asof k) r) (ing_ifid ing))
+                    (Some (if_of r (nifof (eff k) (tr_eg p (eff k))))) xo = EgOk.
+Proof.
+  intros V Hk Ha H0. assert (Hk' : (k < n)%nat) by lia.
+  pose proof (arrives_from0 mac t now p pp HG Hep Hexp k ing Hk' Ha) as F0.
+  destruct (as_of_ok _ _ _ HG k Hk') as [Ak Ik].
+  assert (Hle : (eff k < n)%nat).
+  { unfold ForwardStep.eff. destruct (crosses p k || Nat.eqb (S k) n); lia. }
+  assert (Hll : (k < n)%nat /\ (js k < nsegs)%nat) by (split; [lia|now apply (js_lt p Hs)]).
+  destruct Hll as [Hlk Hjk].
+  destruct (ingress_arrive mac t now p pp HG Hep Hexp n nsegs q k ing r V Hk' Hlk Hjk Ha) as (q1 & Ein & V1 & Fr1).
+  pose proof (view_full p pp Hs q1 k true V1) as Eq1.
+  exists (mkSt q1 (rhop (hop p k)) (rinfo p k true (js k)) (peerhop p k) false 0).
+  assert (Dst : (p_dst_ia q =? a_ia (asof k))%N = false).
+  { rewrite (v_dst_ia _ _ _ _ _ _ _ _ V), Ik.
+    pose proof Hep as Hep'. unfold endpoints_ok in Hep'.
+    apply andb_true_iff in Hep' as [E _]. apply andb_true_iff in E as [E _].
+    apply andb_true_iff in E as [_ Ed]. apply N.eqb_eq in Ed. rewrite Ed.
+    apply N.eqb_neq. intros X. apply (ia_not_dst _ _ _ HG k Hk). now symmetry. }
+  pose proof (view_meta p pp _ _ _ _ _ _ true V1) as M1.
+  assert (Xo : is_xover q1 = is_last p k).
+  { rewrite (is_xover_meta _ _ M1), (is_xover_render p pp Hs k true Hk').
+    replace (Nat.eqb (S k) n) with false by (symmetry; apply Nat.eqb_neq; lia). reflexivity. }
+  unfold ForwardStep.eff in *. destruct (crosses p k) eqn:C; cbn [orb] in *.
+  - (* no segment change *)
+    exists false. split; [exact Ein|]. split; [exact Eq1|]. split; [exact Dst|].
+    split.
+    { rewrite xover_part_skip.
+      - unfold stop_state. now rewrite Eq1.
+      - cbn [s_p s_peer]. rewrite Xo. destruct (is_last p k) eqn:L; [|reflexivity].
+        now rewrite (peer_exit mac t p HG k Hk C L). }
+    split; [reflexivity|]. split; [exact Hk|]. split; [exact C|].
+    rewrite F0. destruct Ha as [[-> ->]|(H1 & Cp & ->)].
+    + cbn [Nat.eqb]. apply veg_int. symmetry. now apply H0.
+    + replace (Nat.eqb k 0) with false by (symmetry; apply Nat.eqb_neq; lia).
+      cbn [ing_ifid]. destruct (ingress_type mac t now p pp HG Hep Hexp k r H1 Hk' Cp) as (Lt & _ & _). rewrite Lt.
+      apply veg_ext. destruct (link_fact _ _ _ HG k Hk C) as (_ & _ & Tf & _). rewrite Tf.
+      now apply (types_intra _ _ _ HG).
+  - (* effective segment change *)
+    replace (Nat.eqb (S k) n) with false in * by (symmetry; apply Nat.eqb_neq; lia).
+    destruct (after_junction mac t now p pp HG Hep Hexp k Hk C) as (C1 & N3 & Ph1 & Ph & L & J & K1).
+    destruct Ha as [[-> _]|(_ & Cp & ->)]; [lia|].
+    destruct (types_xover _ _ _ HG k K1 ltac:(lia) Hk Cp C) as (Tx & Iax).
+    assert (As1 : asof (S k) = asof k) by (unfold as_of; now rewrite Iax).
+    exists true. split; [exact Ein|]. split; [exact Eq1|]. split; [exact Dst|].
+    assert (V2 : View (inc_path q1) (S k) (S k) true).
+    { apply (view_reinfo p pp n nsegs _ (S k) k true (S k) true).
+      - now apply (view_inc p pp Hs).
+      - intros j _ Hjs. apply rinfo_eq. now apply (sid_xover _ _ _ HG). }
+    split.
+    { rewrite Ph.
+      rewrite (xover_part_pass _ now _ (rhop (hop p (S k))) (rinfo p (S k) true (js (S k)))).
+      - cbn [s_p s_peer s_eg]. unfold stop_state. rewrite (view_full p pp Hs _ _ _ V2). now rewrite Ph1.
+      - cbn [s_p s_peer]. now rewrite Xo, L.
+      - cbn [s_p]. rewrite (v_ch _ _ _ _ _ _ _ _ V1).
+        replace (N.of_nat k + 1)%N with (N.of_nat (S k)) by lia. rewrite nthN_of_nat.
+        apply (v_hops _ _ _ _ _ _ _ _ V1); assumption.
+      - cbn [s_p]. rewrite (inf_index_meta _ _ _ M1), (v_ch _ _ _ _ _ _ _ _ V1).
+        replace (N.of_nat k + 1)%N with (N.of_nat (S k)) by lia.
+        rewrite (inf_index_render p pp Hs k true (S k) Hk). rewrite nthN_of_nat.
+        pose proof (js_lt p Hs (S k) Hk) as Jl.
+        rewrite (v_infos _ _ _ _ _ _ _ _ V1) by assumption.
+        f_equal. apply rinfo_eq. apply (sid_xover _ _ _ HG); assumption.
+      - now apply (unexpired now p Hexp).
+      - rewrite <- As1. apply (mac_ok mac t p HG); [assumption|]. now apply (sid_cur_mid p Hs). }
+    split; [exact As1|]. split; [exact N3|]. split; [exact C1|].
+    rewrite F0. replace (Nat.eqb k 0) with false by (symmetry; apply Nat.eqb_neq; lia).
+    cbn [ing_ifid]. destruct (ingress_type mac t now p pp HG Hep Hexp k r K1 Hk' Cp) as (Lt & _ & _). rewrite Lt.
+    apply veg_ext. destruct (link_fact _ _ _ HG (S k) N3 C1) as (_ & _ & Tf & _). rewrite Tf. exact Tx.
+Qed.
+
+(** ** the egress lookup of the faulty router *)
+Definition down_req (ext : bool) : spreq :=
+  if ext then SpScmp ScmpExternalInterfaceDown 0 0 else SpScmp ScmpInternalConnectivityDown 0 0.
+
+Definition unknown_req (consdir : bool) (q : pkt) : spreq :=
+  SpScmp ScmpParameterProblem
+         (if consdir then CodeUnknownHopFieldEgress else CodeUnknownHopFieldIngress) (hop_ptr q).
+
+Lemma after_xover_unknown c' ing s :
+  get_if c' (egress_interface s) = None ->
+  after_xover c' ing s =
+  Stop (SlowPath (unknown_req (i_consdir (s_inf s)) (s_p s)) (egress_interface s) (s_p s)).
+Proof.
+  intros G. unfold after_xover, set_egress. cbn [bind].
+  unfold validate_egress_id. cbn [s_eg s_xover s_inf s_p]. rewrite G.
+  unfold validate_egress. reflexivity.
+Qed.
+
+Lemma after_xover_down c' ing s f :
+  get_if c' (egress_interface s) = Some f ->
+  validate_egress (from0 ing) (lt_of c' (ing_ifid ing)) (Some f) (s_xover s) = EgOk ->
+  h_ialert (s_hop s) = false -> h_ealert (s_hop s) = false -> if_up f = false ->
+  after_xover c' ing s =
+  Stop (SlowPath (down_req (scope_eqb (if_scope f) External)) (egress_interface s) (s_p s)).
+Proof.
+  intros G V Hi He Up. unfold after_xover, set_egress. cbn [bind].
+  unfold validate_egress_id. cbn [s_eg s_xover s_inf s_p]. rewrite G, V. cbn [bind].
+  unfold handle_egress_router_alert. cbn [s_inf s_hop]. rewrite Hi, He.
+  destruct (i_consdir (s_inf s)); cbn [negb bind];
+    unfold validate_egress_up, egress_if; cbn [s_eg]; rewrite G, Up;
+    unfold down_req, slow; cbn [s_eg s_p]; destruct (scope_eqb (if_scope f) External); reflexivity.
+Qed.
+
+(** what the router with the faulty egress interface hands to its slow path *)
+Definition fault_req (cf : ScmpReturn.cfault) (kc : nat) (own : bool) : spreq :=
+  match cf with
+  | ScmpReturn.CUnknown _ => unknown_req (cons p kc) (render p pp kc true)
+  | ScmpReturn.CDown _ => down_req own
+  end.
+
+Definition fault_if (cf : ScmpReturn.cfault) : N :=
+  match cf with ScmpReturn.CUnknown e => e | ScmpReturn.CDown e => e end.
+
+Lemma stop_state_fault c0 cf ing kc xo r :
+  (S kc < n)%nat -> crosses p kc = true -> c0 = cfg_of (asof kc) r ->
+  fault_if cf = tr_eg p kc ->
+  validate_egress (from0 ing) (lt_of c0 (ing_ifid ing)) (Some (if_of r (nifof kc (tr_eg p kc)))) xo = EgOk ->
+  after_xover (ScmpReturn.apply_cfault cf c0) ing (stop_state kc xo) =
+  Stop (SlowPath (fault_req cf kc (eg_rtr kc =? r)%N) (tr_eg p kc) (render p pp kc true)).
+Proof.
+  intros Hk C -> Fe Hv. assert (Hk' : (kc < n)%nat) by lia.
+  destruct (link_fact _ _ _ HG kc Hk C) as (Ff & _ & _ & _ & Ez & _ & Up & _).
+  set (f := nifof kc (tr_eg p kc)) in *.
+  assert (Eg : egress_interface (stop_state kc xo) = tr_eg p kc).
+  { unfold egress_interface, stop_state. cbn [s_inf s_hop]. rewrite (rinfo_consdir p kc kc true). reflexivity. }
+  assert (Gi : get_if (cfg_of (asof kc) r) (tr_eg p kc) = Some (if_of r f)) by (apply get_if_cfg; assumption).
+  destruct cf as [e|e]; cbn [fault_if] in Fe; subst e; cbn [fault_req].
+  - rewrite (after_xover_down _ ing (stop_state kc xo) (ScmpReturn.set_down (if_of r f))).
+    + rewrite Eg. cbn [stop_state s_p]. do 3 f_equal.
+      unfold ScmpReturn.set_down. cbn [if_scope]. unfold if_of, ForwardStep.eg_rtr. fold f.
+      destruct (ni_owner f =? r)%N; reflexivity.
+    + rewrite Eg. now apply get_if_down.
+    + rewrite lt_of_down. cbn [stop_state s_xover].
+      unfold ScmpReturn.set_down. unfold validate_egress in *. cbn [if_scope if_lt]. exact Hv.
+    + reflexivity.
+    + reflexivity.
+    + reflexivity.
+  - rewrite after_xover_unknown.
+    + rewrite Eg. cbn [stop_state s_p s_inf]. now rewrite (rinfo_consdir p kc kc true).
+    + rewrite Eg. now apply get_if_unknown.
+Qed.
+
+(** arrival from the host or the previous AS at the router whose egress interface is faulty *)
+Theorem fault_arrive q k ing r cf :
+  View q k k false -> (S k < n)%nat -> arrives k ing -> (k = 0%nat -> r = eg_rtr (eff k)) ->
+  fault_if cf = tr_eg p (eff k) ->
+  process_scion (macq (a_key (asof k))) (ScmpReturn.apply_cfault cf (cfg_of (asof k) r)) now ing q =
+  SlowPath (fault_req cf (eff k) (eg_rtr (eff k) =? r)%N) (tr_eg p (eff k)) (render p pp (eff k) true).
+Proof.
+  intros V Hk Ha H0 Fe. assert (Hk' : (k < n)%nat) by lia.
+  destruct (arrive_state q k ing r V Hk Ha H0) as (s1 & xo & Ein & S1 & Dst & Ex & As & Hn & C & Hv).
+  pose proof (arrives_from0 mac t now p pp HG Hep Hexp k ing Hk' Ha) as F0.
+  unfold process_scion.
+  rewrite (ingress_part_cfg (macq (a_key (asof k))) (cfg_of (asof k) r) _ now ing (c_ia_fault _ cf) q).
+  2:{ intros s Sp. unfold validate_transit_underlay_src. rewrite Sp. unfold is_first_hop.
+      rewrite (v_ch _ _ _ _ _ _ _ _ V), F0.
+      destruct k as [|k0]; [reflexivity|]. cbn [Nat.eqb negb]. now rewrite orb_true_r. }
+  rewrite Ein. rewrite c_ia_fault. cbn [cfg_of c_ia]. rewrite Dst.
+  rewrite egress_part_split, Ex. cbn [bind].
+  rewrite (stop_state_fault (cfg_of (asof k) r) cf ing (eff k) xo r Hn C); try assumption;
+    try reflexivity; now rewrite As.
+Qed.
+
+(** ** the egress router of an AS, reached over the sibling link *)
+
+(** its ingress half, for any configuration that agrees with the healthy one on the ISD-AS and
+    on the interface through which the packet entered the AS *)
+Lemma ingress_mid c' q k k0 r :
+  View q k k true -> (S k < n)%nat -> crosses p k = true ->
+  ForwardStep.entry p k = k0 -> (1 <= k0)%nat -> crosses p (k0 - 1) = true -> asof k0 = asof k ->
+  in_rtr k0 <> r ->
+  c_ia c' = ia p k -> get_if c' (tr_in p k0) = get_if (cfg_of (asof k) r) (tr_in p k0) ->
+  ingress_part (macq (a_key (asof k))) c' now (InSib (in_rtr k0 + 1)) q =
+  Ok (mkSt q (rhop (hop p k)) (rinfo p k true (js k)) (peerhop p k) false 0).
+Proof.
+  intros V Hk C He K0 C0 As0 Hne Cia Gi. assert (Hk' : (k < n)%nat) by lia.
+  assert (K1 : (1 <= k)%nat).
+  { unfold ForwardStep.entry in He. destruct (is_first p k && negb (peerhop p k)); lia. }
+  assert (Hk0 : (k0 < n)%nat).
+  { unfold ForwardStep.entry in He. destruct (is_first p k && negb (peerhop p k)); lia. }
+  destruct (as_of_ok _ _ _ HG k Hk') as [Ak Ik].
+  set (ing := InSib (in_rtr k0 + 1)).
+  set (h := rhop (hop p k)). set (i := rinfo p k true (js k)). set (pr := peerhop p k).
+  pose proof (view_meta p pp _ _ _ _ _ _ true V) as M.
+  pose proof Hep as Hep'. unfold endpoints_ok in Hep'.
+  apply andb_true_iff in Hep' as [E _]. apply andb_true_iff in E as [E _].
+  apply andb_true_iff in E as [Es Ed]. apply N.eqb_eq in Es, Ed.
+  pose proof (js_lt p Hs k Hk') as Hj.
+  apply (ingress_part_pass _ c' now ing q h i pr).
+  - apply (parse_path_view p pp Hs n nsegs q k true V Hk' Hk' Hj).
+  - apply (determine_peer_view p pp Hs n nsegs q k k true true h V Hk').
+  - now apply (unexpired now p Hexp).
+  - now left.
+  - now rewrite (v_pay_len _ _ _ _ _ _ _ _ V), (v_pay_actual _ _ _ _ _ _ _ _ V).
+  - unfold validate_transit_underlay_src. cbn [s_p]. unfold is_first_hop.
+    rewrite (v_ch _ _ _ _ _ _ _ _ V).
+    replace (N.of_nat k =? 0)%N with false by lia. cbn [from0 ing ing_ifid N.eqb negb orb].
+    assert (II : ingress_interface (mkSt q h i pr false 0) = Some (tr_in p k0)).
+    { unfold ingress_interface. cbn [s_p s_peer s_inf s_hop].
+      rewrite (first_after_xover_meta _ _ M), (first_after_xover_render p pp Hs k true Hk').
+      replace (Nat.eqb k 0) with false by (symmetry; apply Nat.eqb_neq; lia). cbn [negb andb].
+      unfold ForwardStep.entry in He. unfold pr. rewrite andb_comm.
+      destruct (is_first p k && negb (peerhop p k)) eqn:X.
+      - apply andb_true_iff in X as [F _]. subst k0.
+        destruct k as [|k]; [lia|]. replace (S k - 1)%nat with k in * by lia.
+        destruct (prev_next p HP HT k Hk' F) as (_ & J).
+        rewrite (v_ci _ _ _ _ _ _ _ _ V), (v_ch _ _ _ _ _ _ _ _ V). rewrite J.
+        replace (N.of_nat (S (js k)) - 1)%N with (N.of_nat (js k)) by lia.
+        replace (N.of_nat (S k) - 1)%N with (N.of_nat k) by lia.
+        rewrite !nthN_of_nat.
+        pose proof (js_lt p Hs k Hk0) as Jl.
+        rewrite (v_infos _ _ _ _ _ _ _ _ V) by (lia || assumption).
+        rewrite (v_hops _ _ _ _ _ _ _ _ V) by (lia || assumption).
+        rewrite (rinfo_consdir p k (S k) true). unfold tr_in. reflexivity.
+      - subst k0. unfold i, h. rewrite (rinfo_consdir p k k true). unfold tr_in. reflexivity. }
+    rewrite II.
+    destruct (ingress_type mac t now p pp HG Hep Hexp k0 r K0 Hk0 C0) as (_ & Nz & Fg). rewrite As0 in Fg.
+    rewrite Gi. rewrite (get_if_cfg _ _ _ _ Nz Fg).
+    unfold if_of.
+    replace (ni_owner (nifof k0 (tr_in p k0)) =? r)%N with false
+      by (symmetry; apply N.eqb_neq; exact Hne).
+    cbn [if_link if_scope ing_link]. unfold ForwardStep.in_rtr. now rewrite N.eqb_refl.
+  - unfold validate_src_dst_ia. cbn [s_p]. unfold is_first_hop.
+    rewrite (v_ch _ _ _ _ _ _ _ _ V), (v_dst_ia _ _ _ _ _ _ _ _ V).
+    rewrite Cia. cbn [from0 ing ing_ifid N.eqb]. rewrite Ed.
+    replace (N.of_nat k =? 0)%N with false by lia. cbn [andb].
+    replace (ia p (n - 1) =? ia p k)%N with false
+      by (symmetry; apply N.eqb_neq; intros X; apply (ia_not_dst _ _ _ HG k Hk); now symmetry).
+    reflexivity.
+  - unfold validate_src_host. cbn [s_p]. rewrite (v_src_ia _ _ _ _ _ _ _ _ V).
+    rewrite Cia, Es.
+    replace (ia p 0 =? ia p k)%N with false
+      by (symmetry; apply N.eqb_neq; intros X; apply (ia_not_src _ _ _ HG k); [lia|lia|now symmetry]).
+    reflexivity.
+  - cbn [from0 ing ing_ifid N.eqb negb andb]. now rewrite andb_false_r.
+  - cbn [s_inf].
+    apply (mac_ok mac t p HG); [assumption|]. now apply (sid_cur_mid p Hs).
+  - reflexivity.
+  - reflexivity.
+Qed.
+
+Theorem fault_mid q k k0 cf :
+  View q k k true -> (S k < n)%nat -> crosses p k = true ->
+  ForwardStep.entry p k = k0 -> (1 <= k0)%nat -> crosses p (k0 - 1) = true -> asof k0 = asof k ->
+  in_rtr k0 <> eg_rtr k ->
+  fault_if cf = tr_eg p k ->
+  process_scion (macq (a_key (asof k))) (ScmpReturn.apply_cfault cf (cfg_of (asof k) (eg_rtr k))) now
+                (InSib (in_rtr k0 + 1)) q =
+  SlowPath (fault_req cf k true) (tr_eg p k) (render p pp k true).
+Proof.
+  intros V Hk C He K0 C0 As0 Hne Fe. assert (Hk' : (k < n)%nat) by lia.
+  assert (Hk0 : (k0 < n)%nat).
+  { unfold ForwardStep.entry in He. destruct (is_first p k && negb (peerhop p k)); lia. }
+  destruct (as_of_ok _ _ _ HG k Hk') as [Ak Ik].
+  destruct (link_fact _ _ _ HG k Hk C) as (Ff & _ & _ & _ & Ez & _ & Up & _).
+  set (r := eg_rtr k) in *. set (c0 := cfg_of (asof k) r).
+  assert (Gi0 : get_if c0 (tr_eg p k) = Some (if_of r (nifof k (tr_eg p k)))) by (apply get_if_cfg; assumption).
+  assert (Sc : scope_eqb (if_scope (if_of r (nifof k (tr_eg p k)))) External = true).
+  { unfold if_of, r, ForwardStep.eg_rtr. now rewrite N.eqb_refl. }
+  destruct (ingress_type mac t now p pp HG Hep Hexp k0 r K0 Hk0 C0) as (_ & Nz & Fg). rewrite As0 in Fg.
+  assert (Ne : tr_in p k0 <> tr_eg p k).
+  { intros X. apply Hne. unfold r, ForwardStep.in_rtr, ForwardStep.eg_rtr. rewrite X.
+    rewrite X in Fg. rewrite Ff in Fg. injection Fg as Fg. now rewrite Fg. }
+  assert (Gi : get_if (ScmpReturn.apply_cfault cf c0) (tr_in p k0) = get_if c0 (tr_in p k0)).
+  { destruct cf as [e|e]; cbn [fault_if] in Fe; subst e.
+    - now apply (get_if_down_other c0 (tr_eg p k) (if_of r (nifof k (tr_eg p k)))).
+    - now apply get_if_unknown_other. }
+  unfold process_scion.
+  rewrite (ingress_mid (ScmpReturn.apply_cfault cf c0) q k k0 r V Hk C He K0 C0 As0 Hne).
+  2:{ rewrite c_ia_fault. unfold c0. cbn [cfg_of c_ia]. exact Ik. }
+  2:{ exact Gi. }
+  rewrite (v_dst_ia _ _ _ _ _ _ _ _ V). rewrite c_ia_fault. unfold c0 at 1. cbn [cfg_of c_ia]. rewrite Ik.
+  pose proof Hep as Hep'. unfold endpoints_ok in Hep'.
+  apply andb_true_iff in Hep' as [E _]. apply andb_true_iff in E as [E _].
+  apply andb_true_iff in E as [_ Ed]. apply N.eqb_eq in Ed. rewrite Ed.
+  replace (ia p (n - 1) =? ia p k)%N with false
+    by (symmetry; apply N.eqb_neq; intros X; apply (ia_not_dst _ _ _ HG k Hk); now symmetry).
+  rewrite egress_part_split.
+  pose proof (view_meta p pp _ _ _ _ _ _ true V) as M.
+  rewrite xover_part_skip.
+  2:{ cbn [s_p s_peer]. rewrite (is_xover_meta _ _ M), (is_xover_render p pp Hs k true Hk').
+      replace (Nat.eqb (S k) n) with false by (symmetry; apply Nat.eqb_neq; lia). cbn [negb andb].
+      destruct (is_last p k) eqn:L; [|reflexivity]. now rewrite (peer_exit mac t p HG k Hk C L). }
+  cbn [bind]. rewrite (view_full p pp Hs q k true V). fold (stop_state k false).
+  rewrite (stop_state_fault c0 cf (InSib (in_rtr k0 + 1)) k false r Hk C eq_refl Fe).
+  - unfold r. now rewrite N.eqb_refl.
+  - cbn [from0 ing_ifid N.eqb]. apply veg_int. reflexivity.
+Qed.
+
+End Stop.
